@@ -295,32 +295,38 @@ func rewrite(s string) (string, error) {
 			return fmt.Sprintf("%s_(func(%s) bool { return %s })", q, binders, body), nil
 		}
 	}
-	if i := topLevel(s, "==>"); i >= 0 {
-		l, err := rewrite(s[:i])
+	// a quantifier after && or || extends to the end of the group; it binds
+	// before an implication that follows it
+	qpos, qop := -1, ""
+	for _, op := range []string{"&&", "||"} {
+		for _, q := range []string{"forall ", "exists "} {
+			if i := topLevel(s, op+" "+q); i >= 0 && (qpos < 0 || i < qpos) {
+				qpos, qop = i, op
+			}
+		}
+	}
+	ipos := topLevel(s, "==>")
+	if qpos >= 0 && (ipos < 0 || qpos < ipos) {
+		l, err := rewrite(s[:qpos])
 		if err != nil {
 			return "", err
 		}
-		r, err := rewrite(s[i+3:])
+		r, err := rewrite(s[qpos+len(qop):])
+		if err != nil {
+			return "", err
+		}
+		return fmt.Sprintf("(%s) %s (%s)", l, qop, r), nil
+	}
+	if ipos >= 0 {
+		l, err := rewrite(s[:ipos])
+		if err != nil {
+			return "", err
+		}
+		r, err := rewrite(s[ipos+3:])
 		if err != nil {
 			return "", err
 		}
 		return fmt.Sprintf("implies_(%s, %s)", l, r), nil
-	}
-	// a quantifier may follow && or || at top level: "A && forall ..."
-	for _, op := range []string{"&&", "||"} {
-		for _, q := range []string{"forall ", "exists "} {
-			if i := topLevel(s, op+" "+q); i >= 0 {
-				l, err := rewrite(s[:i])
-				if err != nil {
-					return "", err
-				}
-				r, err := rewrite(s[i+len(op):])
-				if err != nil {
-					return "", err
-				}
-				return fmt.Sprintf("(%s) %s (%s)", l, op, r), nil
-			}
-		}
 	}
 	// recurse into bracketed groups
 	var sb strings.Builder
